@@ -650,6 +650,80 @@ theorem exited_owns_nothing (n : Nat) (h : List Event) (hw : wfFrom (init n) h =
       (exOwn_step hn hx hp ht h ev hw.1.2) hw.2
 
 
+/-! ## liveness under fairness: once every exit report has been delivered nothing is leaked -/
+
+/-- Every `ProcessExited` the workers owe has been handled (fairness: channels lose nothing and the
+environment keeps stepping, so every history extends to one with this property). -/
+def AllExitsDelivered (s : Sys) : Prop := ∀ p ∈ s.terminated, p ∈ s.env.exited
+
+/-- **no_leak_when_exits_delivered.** After a well-formed history in which every owed exit report
+has been delivered, no resource is registered to a dead process: every registered resource has a
+live owner. (This is the end-of-run oracle of the harness.) -/
+theorem no_leak_when_exits_delivered (n : Nat) (h : List Event) (hw : wfFrom (init n) h = true)
+    (hd : AllExitsDelivered (run (init n) h)) (r : Rid) (p : Pid)
+    (hr : ownGet (run (init n) h).env.owner r = some p) : p ∉ (run (init n) h).terminated :=
+  fun hp => exited_owns_nothing n h hw p (hd p hp) r hr
+
+theorem deliver_exits (s : Sys) (ps : List Pid) (hps : ∀ p ∈ ps, p ∈ s.terminated) :
+    wfFrom s (ps.map Event.exited) = true ∧
+    (run s (ps.map Event.exited)).terminated = s.terminated ∧
+    (∀ p, p ∈ ps ∨ p ∈ s.env.exited → p ∈ (run s (ps.map Event.exited)).env.exited) := by
+  induction ps generalizing s with
+  | nil => exact ⟨rfl, rfl, fun p hp => hp.elim (fun h => by cases h) id⟩
+  | cons q rest ih =>
+    have hq := hps q List.mem_cons_self
+    have hterm : (step s (.exited q)).terminated = s.terminated := rfl
+    have hex : (step s (.exited q)).env.exited = q :: s.env.exited := rfl
+    obtain ⟨h1, h2, h3⟩ := ih (step s (.exited q))
+      (fun p hp => hterm ▸ hps p (List.mem_cons_of_mem _ hp))
+    refine ⟨?_, ?_, ?_⟩
+    · simp only [List.map_cons, wfFrom, eventOk, handlesExist, livenessOk, Bool.true_and,
+        Bool.and_eq_true, List.contains_eq_mem, decide_eq_true_eq]
+      exact ⟨hq, h1⟩
+    · simp only [List.map_cons, run]; rw [h2, hterm]
+    · intro p hp
+      simp only [List.map_cons, run]
+      apply h3
+      rw [hex]
+      rcases hp with hp | hp
+      · rcases List.mem_cons.1 hp with rfl | hp
+        · exact .inr List.mem_cons_self
+        · exact .inl hp
+      · exact .inr (List.mem_cons_of_mem _ hp)
+
+theorem wfFrom_append (s : Sys) (a b : List Event) (ha : wfFrom s a = true)
+    (hb : wfFrom (run s a) b = true) : wfFrom s (a ++ b) = true := by
+  induction a generalizing s with
+  | nil => exact hb
+  | cons ev rest ih =>
+    simp only [wfFrom, Bool.and_eq_true] at ha
+    simp only [List.cons_append, wfFrom, Bool.and_eq_true]
+    exact ⟨ha.1, ih _ ha.2 hb⟩
+
+/-- **eventually_nothing_leaks.** Every well-formed history has a continuation that consists only
+of deliveries of exit reports the workers already owe (no process does anything, nobody awaits
+anybody) after which no resource is registered to a dead process — every resource of every
+terminated process has been closed (`exited_owns_nothing`, `closed_on_termination`), exactly once
+(`effective_close_once`). Under fairness (every owed report is eventually delivered) this is the
+liveness half of C14; before the repair of F10 no such continuation existed
+(`closedOnTermination_false_without_exit_reports`, `stays_open_while_left_alone`). -/
+theorem eventually_nothing_leaks (n : Nat) (h : List Event) (hw : wfFrom (init n) h = true) :
+    ∃ h', ExitDelivery (run (init n) h) h' ∧ wfFrom (init n) (h ++ h') = true ∧
+      ∀ r p, ownGet (run (init n) (h ++ h')).env.owner r = some p →
+        p ∉ (run (init n) (h ++ h')).terminated := by
+  obtain ⟨h1, h2, h3⟩ := deliver_exits (run (init n) h) (run (init n) h).terminated (fun p hp => hp)
+  refine ⟨(run (init n) h).terminated.map Event.exited, ?_, wfFrom_append _ _ _ hw h1, ?_⟩
+  · intro ev hev
+    obtain ⟨p, hp, rfl⟩ := List.mem_map.1 hev
+    exact .inr ⟨p, rfl, hp⟩
+  · intro r p hr
+    apply no_leak_when_exits_delivered n _ (wfFrom_append _ _ _ hw h1) _ r p hr
+    intro q hq
+    rw [run_append] at hq ⊢
+    rw [h2] at hq
+    exact h3 q (.inl hq)
+
+
 /-- **closed_on_reported_termination_partial** — the part of "closed on termination" that does
 hold: as soon as a `ProcessResults` reporting `p` as completed is handled (some process awaited
 `p`), every resource registered to `p` has been passed to `close_resource`, is no longer open in the
